@@ -8,7 +8,11 @@ From Coq Require Import NArith.
 Import ListNotations.
 
 (** For every history over three buffer variables (allocate, deallocate, pushes and pops at both ends,
-    clear, copy/move construction and assignment, queries) that respects the documented preconditions:
+    clear, copy/move construction and assignment, queries) that respects the documented preconditions
+    ([valid]: a push needs a free place within max_size, a pop a non-empty buffer, allocate an unallocated
+    buffer, and the SOURCE of a copy or move must be allocated; the destination of an assignment may be in any
+    state, incl. default-constructed, moved-from and deallocated -- the last case is what exposed the stale
+    capacity_ defect refuted below):
     every query answers exactly as the bounded-deque specification, and the lifetime ledger never
     records a construct-over-live, a destroy-of-raw or, after final destruction, a leaked element. *)
 Theorem C16_ring_refines_deque : forall ops,
@@ -51,6 +55,16 @@ Theorem C16_allocate_shipped_refuted :
   bad (push_back (buf (allocate rd 1)) 1) = false.
 Proof. exact allocate_shipped_refuted. Qed.
 Print Assumptions C16_allocate_shipped_refuted.
+
+Theorem C16_deallocate_shipped_refuted :
+  let a0 := buf (push_back (make 3) 1) in
+  let c := buf (push_back (make 3) 2) in
+  data (buf (deallocate_shipped a0)) = None /\ cap (buf (deallocate_shipped a0)) = cap c /\
+  bad (copy_assign (buf (deallocate_shipped a0)) c) = true /\
+  bad (copy_assign (buf (deallocate a0)) c) = false /\
+  contents (buf (copy_assign (buf (deallocate a0)) c)) = [Some 2].
+Proof. exact deallocate_shipped_refuted. Qed.
+Print Assumptions C16_deallocate_shipped_refuted.
 
 (** SimpleVector (Normal mode): for every history over three variables (construction with a size, resize,
     element writes, destroy(), move construction / assignment, swap, queries) the answers are those of plain lists
